@@ -15,7 +15,9 @@
 (* Return) is scheduled as soon as it is enabled.                              *)
 EXTENDS OnceMC, Json, CSV, TLCExt
 
-CONSTANT OutFile
+CONSTANTS OutFile,   \* schedules without constructor faults
+          OutFileP   \* schedules in which a constructor panics (they leave goroutines blocked
+                     \* for good, so the harness replays them in small separate batches)
 
 VARIABLES hist,      \* sequence of coarse steps so far
           run,       \* process in the middle of a coarse step, 0 = none
@@ -34,13 +36,14 @@ Fine(p, a) ==
     \/ a = "RecvToken" /\ RecvToken(p)
     \/ a = "RecvClosed" /\ RecvClosed(p)
     \/ a = "Construct" /\ Construct(p)
+    \/ a = "ConstructPanics" /\ ConstructPanics(p)
     \/ a = "StoreCached" /\ StoreCached(p)
     \/ a = "Close" /\ Close(p)
     \/ a = "ReadCached" /\ ReadCached(p)
     \/ a = "Return" /\ Return(p)
 
 Names == {"Start", "LoadHit", "LoadMiss", "LoadOrStore", "RecvToken", "RecvClosed",
-          "Construct", "StoreCached", "Close", "ReadCached", "Return"}
+          "Construct", "ConstructPanics", "StoreCached", "Close", "ReadCached", "Return"}
 
 (* Where p stops after fine action a ("" = it keeps running).  Evaluated on    *)
 (* the successor state.                                                        *)
@@ -48,7 +51,7 @@ StopAfter(p, a) ==
     IF a = "LoadMiss" THEN "once.miss"
     ELSE IF a = "LoadOrStore" THEN "once.stored"
     ELSE IF a = "RecvToken" THEN "construct"
-    ELSE IF a = "Return" THEN "done"
+    ELSE IF a \in {"Return", "ConstructPanics"} THEN "done"   \* a panicked Get has ended, too (val = -1)
     ELSE IF pc'[p] = "call" /\ chan'[ldr'[p]] = "empty" THEN "blocked"
     ELSE ""
 
@@ -94,15 +97,20 @@ GNext ==
 
 GSpec == GInit /\ [][GNext]_gvars
 
-Complete == AllFinished /\ run = 0
+(* A schedule is complete when every process has finished or is blocked for   *)
+(* good in a Get of a key whose construction panicked.                        *)
+StuckSet == {p \in waiting : ldr[p] \in failed}
+Complete == run = 0 /\ \A p \in Procs : Finished(p) \/ p \in StuckSet
 
 Emit == Complete =>
-          CSVWrite("%1$s", <<ToJson([np |-> Cardinality(Procs), plan |-> plan, zero |-> zk, steps |-> hist])>>, OutFile)
+          CSVWrite("%1$s", <<ToJson([np |-> Cardinality(Procs), plan |-> plan, zero |-> zk, panic |-> pk,
+                                     stuck |-> SetToSeq(StuckSet), steps |-> hist])>>,
+                   IF pk = {} THEN OutFile ELSE OutFileP)
 
 (* Sanity of the generator itself. *)
 GenOK == /\ OnceOnly /\ SameResult
          /\ (run = 0 => \A p \in waiting : pc[p] = "call")
-         /\ (Complete => waiting = {})
+         /\ (Complete => waiting = StuckSet)
 (* every schedule can be completed: no state without successor except the complete ones *)
 NoStuck == Complete \/ ENABLED GNext
 =============================================================================
